@@ -16,6 +16,21 @@ caught compiles, keeps `go test ./core/` green and made the quick tier print VIO
       dependent overwrite each other's slot -> stale rule value / missing notification.
       Reached by the fanout scenarios of the driver (extra rule fields g, h, k reading a;
       copy; both records go on evaluating different rules); bin/seedtest -> VIOLATION       -> caught
+  S2  (seeded/C35-delete-drops-stored-deps-r2, written independently, round 2) surecord.go
+      delete(): ensureDeps moved after `r.row = nil`: a record made from a database row whose
+      first dependents-touching operation is Delete/Erase loses the dependencies stored in the
+      <field>_deps columns -> stale stored rule value, observers not notified.
+      MISSED by the previous version (every record was NewSuRecord()/Record(): no row, no
+      stored dependencies, ensureDeps always built an empty map).  Now: Record.tla has the
+      action Reload (ToRecord + SuRecordFromRow; state `lazy`/`sdeps` = dependents not yet
+      built from the row, EnsureDeps where the code calls ensureDeps; deviation "latedeps" =
+      this defect, Record_dev_latedeps.cfg violates GetReflectsCurrent; Record_quick3.cfg is
+      the exhaustive run with Reload), the driver has the operation Reload (real ToRecord with a
+      header that has _deps columns + real SuRecordFromRow), in TLC-generated behaviours, in
+      the random walks and in the dbrow scenarios (save, reload, FIRST operation on the loaded
+      record varies over delete/erase/set/get/invalidate/copy/reload, then the sources of the
+      stored rule values are changed and every rule field is read);
+      bin/seedtest -> VIOLATION (Get of a rule field returns the stale stored value)       -> caught
   (M2  copy sharing the invalid map with the original is also caught, but the repository's own
        TestSuRecord_Concurrency already fails on it - concurrent map write - so it is not counted)
 """
@@ -26,7 +41,7 @@ SKIP_MC = os.environ.get("VERIF_SKIP_MC") == "1"
 
 META = {
  "engine": "tla-record",
- "text": "TLC exhausts Record.tla (rule chain c=a+b, d=c*2, conditional e, in the conformance part also g,h,k = a+1,2,3; set/get/delete/invalidate/copy/observe on 1-2 records, values 0..2) for 'Get returns the rule value computed from current field values', cache freshness and notification of every invalidation; TLC-generated operation sequences and seeded random walks are executed on the real SuRecord (Go API and compiled Suneido code, rules as Rule_* globals) and every Get result and observer notification is validated by TLC trace validation against the same spec",
+ "text": "TLC exhausts Record.tla (rule chain c=a+b, d=c*2, conditional e, in the conformance part also g,h,k = a+1,2,3; set/get/delete/invalidate/copy/observe and save-as-database-row + load-from-row with lazily loaded stored dependencies on 1-2 records, values 0..2) for 'Get returns the rule value computed from current field values', cache freshness and notification of every invalidation; TLC-generated operation sequences and seeded random walks are executed on the real SuRecord (Go API and compiled Suneido code, rules as Rule_* globals; database rows through the real ToRecord / SuRecordFromRow with <field>_deps columns) and every Get result and observer notification is validated by TLC trace validation against the same spec",
  "note": "trusts TLC; rules are three fixed pure functions; observer notifications compared as sets (order/repetition free); small-scope bounds in evidence",
  "technique": "TLA+ model checking (TLC) + model-based test generation + trace validation of the real SuRecord",
 }
@@ -54,14 +69,18 @@ def run(ctx):
     if not SKIP_MC:
         ctx.tlc_mc("MC_Record.tla", "Record_quick.cfg", timeout=600)
         ctx.tlc_mc("MC_Record.tla", "Record_quick2.cfg", timeout=600)
+        # records saved to / made from database rows (Reload): lazily loaded stored dependencies
+        ctx.tlc_mc("MC_Record.tla", "Record_quick3.cfg", timeout=600)
         if ctx.thorough():
             ctx.tlc_mc("MC_Record.tla", "Record_thorough.cfg", timeout=2400)
             ctx.tlc_mc("MC_Record.tla", "Record_thorough2.cfg", timeout=1800)
+            ctx.tlc_mc("MC_Record.tla", "Record_thorough3.cfg", timeout=1800)
         # anti-vacuity: each deviation of the mechanism violates the property in the model
         # (quick: one of the two single-record ones, chosen by the seed; thorough: all three)
         # (copyshare needs two records and depth 5: thorough only)
-        devs = ("notransitive", "nodep", "copyshare")
-        for dev in (devs if ctx.thorough() else devs[ctx.seed % 2:ctx.seed % 2 + 1]):
+        # (latedeps = Delete drops the row before the stored dependencies were loaded: always)
+        devs = ("notransitive", "nodep", "copyshare", "latedeps")
+        for dev in (devs if ctx.thorough() else devs[ctx.seed % 2:ctx.seed % 2 + 1] + devs[3:]):
             ctx.tlc_mc("MC_Record.tla", "Record_dev_%s.cfg" % dev, timeout=600,
                        expect_violation="violated", count=False)
     # 2. generation: TLC simulation produces operation sequences (2 records, 2 observers)
@@ -93,5 +112,6 @@ def run(ctx):
         "rules are the pure functions c=a+b, d=c*2, e=(a is 0)?d:b (e reads b through GetDefault/GetIfPresent), g=a+1, h=a+2, k=a+3 (g,h,k only in the conformance part: up to 5 rules depend on one field); rules are found as Rule_* globals or attached with AttachRule",
         "observer notifications are compared as sets: every newly invalidated field must be notified to every observer; order and repetition are free",
         "a member that was explicitly Set is a current field value until it is invalidated (then its rule recomputes it), as in the code",
+        "Reload = SuRecord.ToRecord with a header of all fields plus a _deps column per rule field, then SuRecordFromRow of that row (no database file, table '' = not updateable); a stored rule value is a valid cached rule value with the dependencies of its _deps column, a stored '' is a missing member",
         "TLC exhaustive bounds: see tlc_runs",
     ]
